@@ -89,7 +89,34 @@ def generic_event_order(ctx: Ctx) -> None:
             evs.append((n, ev))
     kinds = [(ev.kind, ev.expr) for _, ev in evs]
     order = [k for k, _ in kinds]
-    ctx.ob("events appear as START, ATTR, DATA, N(children), END, DATA", order == ["S", "A", "D", "N", "E", "D"], at=fi, construct="generic order", msg=f"event order is {kinds}")
+    if order != ["S", "A", "D", "N", "E", "D"]:
+        # the events may be written once per branch (named / nameless element): check the order along every path instead of in the text
+        import re as _re
+
+        by_node: dict[int, str] = {}
+        for n_, ev in evs:
+            by_node[n_.id] = by_node.get(n_.id, "") + ev.kind
+        seqs: set[str] = set()
+
+        def walk(nid: int, seen: frozenset, acc: str) -> None:
+            if len(seqs) > 400:
+                return
+            acc = acc + by_node.get(nid, "")
+            if nid == g.exit:
+                seqs.add(acc)
+                return
+            nxt = [m for m, lab in g.succ[nid] if lab != "exc" and m not in seen]
+            if not nxt:
+                return
+            for m in nxt:
+                walk(m, seen | {nid}, acc)
+
+        walk(g.entry, frozenset(), "")
+        # loops are walked at most once: A / N appear at most once per path
+        good = bool(seqs) and all(_re.fullmatch(r"(SA?DN?ED?|A?DN?D?)", q) for q in seqs) and any(q.startswith("S") for q in seqs)
+        ctx.ob("events appear as START, ATTR, DATA, N(children), END, DATA", good, at=fi, construct="generic order", msg=f"event order along the paths is {sorted(seqs)[:6]}")
+    else:
+        ctx.ob("events appear as START, ATTR, DATA, N(children), END, DATA", True, at=fi, construct="generic order", msg=f"event order is {kinds}")
     if order == ["S", "A", "D", "N", "E", "D"]:
         (sn, s), (an, a), (dn, d), (nn, nch), (en_, e), (tn, t) = evs
         ctx.ob("text DATA is value.text and tail DATA is value.tail", d.expr == "value.text" and t.expr == "value.tail", at=fi, construct="text/tail exprs", msg=f"{d.expr} / {t.expr}")
